@@ -15,6 +15,13 @@ def main():
     ctx = vlib.Ctx(a.pid.upper(), a.tier, seed)
     os.environ["VERIF_TIER"] = a.tier
     mod = importlib.import_module("props." + a.pid.lower())
+    # a shared lock on the repository: tools/seeded.py takes it exclusively while a seeded change is applied to
+    # /repo, so that no other check ever sees a tree that is being mutated for a test
+    if not os.environ.get("VERIF_REPO_LOCK_HELD"):
+        import fcntl
+        os.makedirs(vlib.CACHE, exist_ok=True)
+        _rl = open(os.path.join(vlib.CACHE, "repo.lock"), "w")
+        fcntl.flock(_rl, fcntl.LOCK_SH)
     if a.replay:
         sys.exit(mod.replay(ctx, a.replay) if hasattr(mod, "replay") else vlib_replay_default(ctx, mod, a.replay))
     try:
